@@ -1069,3 +1069,79 @@ def _elem_source_keep(b, push):
 
 
 RULES.append(k13)
+
+
+@rule("K14", cfgs=EXPL, doc="lifting a congruence to the syntactic level keeps sides and positions apart: child i's goal is (i-th child of the LEFT node, i-th child of the RIGHT node) and is re-associated from the i-th child proof; the kernel is asked for (l, r) in order; re-association chains the LEFT class's redundancy proof in front and the RIGHT class's behind, and ties a left redundant slot to the right slot the goal associates it with")
+def k14(ctx):
+    crate = ctx.lib()
+
+    def meth(name):
+        bs = [b for b in crate.by_name.get(name, []) if b.kind != "Closure" and "egraph::EGraph" in (b.impl_self or "") and "explain" in (b.file or "")]
+        if len(bs) != 1:
+            raise mir.AnchorMissing("EGraph::" + name + " (explanations front end)")
+        return bs[0]
+    # ---- lift_sem_congruence
+    b = meth("lift_sem_congruence")
+    eqs = _aggs(b, "proof::Equation")
+    goals = [(bi, f) for bi, f in eqs if "applied_id_occurrences(" in f.get("l", "")]
+    finals = [(bi, f) for bi, f in eqs if (f.get("l"), f.get("r")) == ("p2", "p3")]
+    ctx.check(bool(finals), "lift:final-goal", "the kernel is asked for the equation (l, r) in order", "lift_sem_congruence asks the congruence kernel for %s" % [(f.get("l"), f.get("r")) for _, f in eqs if "applied_id_occurrences(" not in f.get("l", "")], where_of(b))
+    ctx.floor("child goals in lift_sem_congruence", len(goals), 1)
+    for bi, f in goals:
+        ml = re.match(r"^index\(applied_id_occurrences\(alpha_normalize\(get_syn_node\(self, (p\d)\)\)\), (.*)\)$", f["l"])
+        mr = re.match(r"^index\(applied_id_occurrences\(alpha_normalize\(get_syn_node\(self, (p\d)\)\)\), (.*)\)$", f["r"])
+        ok = bool(ml and mr) and (ml.group(1), mr.group(1)) == ("p2", "p3") and ml.group(2) == mr.group(2)
+        ctx.check(ok, "lift:child-goal", "child goal i = (left node's i-th child, right node's i-th child)",
+                  "lift_sem_congruence builds a child goal from (%s, %s): its left side must be the i-th child of the LEFT term's node and its right side the child of the RIGHT term's node at the same position" % (f["l"][:90], f["r"][:90]), where_of(b, bi))
+    an = [c for c in b.calls if c.callee and c.callee.name == "associate_necessaries" and not b.blocks[c.bb]["cleanup"]]
+    ctx.floor("re-association calls in lift_sem_congruence", len(an), 1)
+    for c in an:
+        a1 = _nrm(b, b.role_of_operand(c.args[1]))
+        a2 = _nrm(b, b.role_of_operand(c.args[2]))
+        ctx.check(a1.startswith("Equation{") and a2.startswith("p4"), "lift:reassociate-child", "each child proof is re-associated towards its own child goal",
+                  "lift_sem_congruence re-associates %s towards %s" % (a2[:60], a1[:60]), where_of(b, c.bb))
+    lps = C.iterator_loops(b)
+    ctx.check(bool(lps) and all(C.loop_exhaustive(b, l) for l in lps), "lift:all-children", "every child is lifted", "the child loop of lift_sem_congruence can stop early", where_of(b))
+    ret = _nrm(b, b.role_of_local(0))
+    ctx.check(ret.startswith("disassociate_proven_eq(self, check(CongruenceProof{"), "lift:result", "the result is the dis-associated answer of the congruence kernel", "lift_sem_congruence returns %s" % ret[:100], where_of(b))
+    # ---- associate_necessaries
+    b = meth("associate_necessaries")
+    n_t = 0
+    for bi, f in _aggs(b, "proof::TransitivityProof"):
+        for pos, side in (("0", "l"), ("1", "r")):
+            v = f.get(pos, "")
+            if v.startswith("get_redundancy_proof(self, "):
+                n_t += 1
+                ok = v.endswith(".%s.id)" % side)
+                ctx.check(ok, "reassociate:redundancy-side:" + pos, "the redundancy proof chained %s belongs to the %s class" % ("in front" if pos == "0" else "behind", "left" if side == "l" else "right"),
+                          "associate_necessaries chains %s as premise %s of a transitivity step: in front goes the redundancy proof of the equation's LEFT class, behind that of its RIGHT class" % (v[:80], pos), where_of(b, bi))
+    ctx.floor("redundancy proofs chained in associate_necessaries", n_t, 2)
+    ga = [c for c in b.calls if c.callee and c.callee.name == "compose_partial" and not b.blocks[c.bb]["cleanup"] and _nrm(b, b.role_of_operand(c.args[0])).startswith("p2.")]
+    okg = any((_nrm(b, b.role_of_operand(c.args[0])), _nrm(b, b.role_of_operand(c.args[1]))) == ("p2.l.m", "inverse(p2.r.m)") for c in ga)
+    ctx.check(okg, "reassociate:goal-associations", "the goal's associations are goal.l.m ; goal.r.m^-1 (left class slot -> right class slot)", "associate_necessaries computes the goal's associations as %s" % [(_nrm(b, b.role_of_operand(c.args[0])), _nrm(b, b.role_of_operand(c.args[1]))) for c in ga], where_of(b))
+    ins = [c for c in b.calls if c.callee and c.callee.name == "insert" and "SlotMap" in (c.callee.impl_self or "") and len(c.args) == 3 and not b.blocks[c.bb]["cleanup"]]
+    sides = {}
+    for c in ins:
+        recv = _nrm(b, b.role_of_operand(c.args[0]))
+        key = _nrm(b, b.role_of_operand(c.args[1]))
+        val = _nrm(b, b.role_of_operand(c.args[2]))
+        side = "l" if recv.endswith(".l.m") else "r" if recv.endswith(".r.m") else None
+        if side:
+            sides[side] = (key, val, c)
+    if "l" in sides and "r" in sides:
+        kl, vl, cl_ = sides["l"]
+        kr, vr, cr_ = sides["r"]
+        klr = strip_role(b.role_of_operand(cl_.args[1]))
+        krr = strip_role(b.role_of_operand(cr_.args[1]))
+        ok = vl == vr == "fresh()" and isinstance(krr, tuple) and krr[0] == "call" and krr[1] == "index" and len(krr[3]) == 2 \
+            and _nrm(b, krr[3][0]) == "compose_partial(p2.l.m, inverse(p2.r.m))" and strip_role(krr[3][1]) == klr and not (isinstance(klr, tuple) and klr[0] == "call" and klr[1] == "index")
+        ctx.check(ok, "reassociate:ties-associated-slots", "a left redundant slot x and the right slot goal_associations[x] get the same fresh name",
+                  "associate_necessaries inserts (%s -> %s) on the left and (%s -> %s) on the right: the left key must be the open slot x itself, the right key goal_associations[x], both mapped to one fresh slot" % (kl[-50:], vl, kr[-70:], vr), where_of(b, cr_.bb))
+    else:
+        ctx.bad("reassociate:ties-associated-slots", "associate_necessaries no longer extends both sides of the sub-goal (found inserts on: %s)" % sorted(sides), where_of(b))
+    chk = [c for c in b.calls if c.callee and c.callee.name == "check" and "TransitivityProof" in (c.callee.impl_self or "") and not b.blocks[c.bb]["cleanup"]]
+    okl = any(_nrm(b, b.role_of_operand(c.args[1])) == "p2" for c in chk)
+    ctx.check(okl, "reassociate:final-goal", "the last transitivity step is checked against the goal", "associate_necessaries never asks the kernel for its goal", where_of(b))
+
+
+RULES.append(k14)
